@@ -81,6 +81,7 @@ class HidDevice:
         self.return_delay_us = None   # when gone: come back after this long
         self.faults_fired = {}
         self.writes = []              # (seq#, t_us, unit, bytes)
+        self.delivered = []           # (t_us, report) as handed to the driver
         self.detections = []          # (t_us, how): the driver was told the device is gone
         self.losses = []              # (t_us, mode)
         self.returns = []             # t_us
@@ -203,6 +204,7 @@ class HidDevice:
         if gen != self.generation or self.fd is None or not self.present:
             return
         self.queue.append(data)
+        self.delivered.append((self.world.now_us(), data))
         self.world.log.add(self.loop.time(), "report", self.name,
                            data[:9].hex())
         self._refire()
